@@ -590,7 +590,7 @@ fn apply_extras(built: &mut Built, c: &SCase) {
                 s.and_where(col().eq(v.to_value()));
             }
         }
-        Built::Insert(_) => {}
+        Built::Insert(_) | Built::With(_) => {}
     }
 }
 
